@@ -21,7 +21,7 @@ func init() {
 	register(func() {
 		engine.Register(&engine.Check{
 			ID: "C08", Level: "exploration",
-			Rule: "valid source documents of each wire language (scalars with every width in containers, trees, typed UBJSON containers, CBOR byte strings / non-minimal integers / indefinite containers, JSON strings/numbers/whitespace) and streams of 2-3 concatenated container documents x all 9 (source,target) pairs x {ParseReader, Decoder.Next loop} x chunkings {whole, every single cut, all single bytes}; the parser is connected directly to the real encoder; oracle (i) the reference decoder of the target format reads back exactly as many documents with the source's reference value (up to the target's representation rules); (ii) differential: bytes of the direct connection == bytes produced by replaying a copied recording of the parser's events into a fresh encoder; a case = (document, pair, entry, chunking); non-trivial = source document longer than one byte",
+			Rule:        "valid source documents of each wire language (scalars with every width in containers, trees, typed UBJSON containers, CBOR byte strings / non-minimal integers / indefinite containers, JSON strings/numbers/whitespace) and streams of 2-3 concatenated container documents x all 9 (source,target) pairs x {ParseReader, Decoder.Next loop} x chunkings {whole, every single cut, all single bytes}; the parser is connected directly to the real encoder; oracle (i) the reference decoder of the target format reads back exactly as many documents with the source's reference value (up to the target's representation rules); (ii) differential: bytes of the direct connection == bytes produced by replaying a copied recording of the parser's events into a fresh encoder; a case = (document, pair, entry, chunking); non-trivial = source document longer than one byte",
 			Assumptions: []string{"source documents with non-finite floats are expected to be refused by the JSON target (documented)", "reference decoders define source and target values"},
 			Families:    c08Families,
 			Require:     []string{"transcodings_compared", "differential_compared", "streams_multi"},
@@ -30,7 +30,7 @@ func init() {
 }
 
 func c08Families(tier string) []engine.Family {
-	sc := docScope{Nodes: tierPick(tier, 3, 4), UBJTypes: tierPick(tier, 8, 15), JSONTok: 0, JSONAtoms: tierPick(tier, 1, 2), NumStride: tierPick(tier, 9, 1), Ctx: tierPick(tier, 3, 0), ScStride: tierPick(tier, 2, 1)}
+	sc := docScope{Nodes: tierPick(tier, 3, 4), UBJTypes: tierPick(tier, 8, 15), JSONTok: 0, JSONAtoms: tierPick(tier, 1, 2), NumStride: tierPick(tier, 9, 1), Ctx: tierPick(tier, 3, 0), ScStride: 1}
 	fams := allDocFamilies(sc, func(x *engine.Exec, c *DocCase) {
 		if c.Ref.Status != model.Complete || c.Fam == "json-structure" || len(c.Doc) > 600 {
 			return
